@@ -126,3 +126,10 @@ func isScalarValue(value interface{}) bool {
 	}
 	return false
 }
+
+// bulkStringResponse encodes a stored value as a RESP bulk string. Stored values are arbitrary bytes
+// (they may contain CR LF), which a simple string ("+...") cannot carry.
+func bulkStringResponse(value interface{}) []byte {
+	s := fmt.Sprintf("%v", value)
+	return []byte(fmt.Sprintf("$%d\r\n%s\r\n", len(s), s))
+}
